@@ -286,13 +286,21 @@ def build_harness(binname, profile="release"):
 
 # ------------------------------------------------------------------------------------------------ running
 
+def _big_stack():
+    import resource
+    try:
+        resource.setrlimit(resource.RLIMIT_STACK, (resource.RLIM_INFINITY, resource.RLIM_INFINITY))
+    except Exception:
+        pass
+
+
 def run_side(exe, args, cases_path, out_path, timeout=3000, stdin_cases=True):
     with open(out_path, "wb") as fo:
         if stdin_cases:
             with open(cases_path, "rb") as fi:
-                p = subprocess.run([exe] + args, stdin=fi, stdout=fo, stderr=subprocess.PIPE, timeout=timeout)
+                p = subprocess.run([exe] + args, stdin=fi, stdout=fo, stderr=subprocess.PIPE, timeout=timeout, preexec_fn=_big_stack)
         else:
-            p = subprocess.run([exe] + args, stdout=fo, stderr=subprocess.PIPE, timeout=timeout)
+            p = subprocess.run([exe] + args, stdout=fo, stderr=subprocess.PIPE, timeout=timeout, preexec_fn=_big_stack)
     if p.returncode != 0:
         raise RuntimeError("%s failed rc=%d: %s" % (exe, p.returncode, p.stderr.decode("utf-8", "replace")[-2000:]))
 
@@ -310,10 +318,17 @@ def run_both(pid, mod, cases, rundir, tag="main", profile="release"):
         for c in cases:
             f.write(c + "\n")
     hexe = build_harness(getattr(mod, "HARNESS_BIN", low), profile)
-    dexe = build_driver(pid)
+    dexe = build_driver(getattr(mod, "DRIVER_PID", pid))
     run_side(hexe, getattr(mod, "HARNESS_ARGS", []), cp, ip)
-    run_side(dexe, [cp, ip], cp, mp, stdin_cases=False)
-    impl = open(ip).read().split("\n")
+    if not getattr(mod, "MARKED", False):
+        run_side(dexe, [cp, ip], cp, mp, stdin_cases=False)
+    impl = open(ip, errors="replace").read().split("\n")
+    if any(l.startswith("@@") for l in impl):
+        # the code under test printed to stdout as well: keep only the marked observation lines
+        impl = [l[2:] for l in impl if l.startswith("@@")]
+        with open(ip, "w") as f:
+            f.write("\n".join(impl) + "\n")
+        run_side(dexe, [cp, ip], cp, mp, stdin_cases=False)
     model = open(mp).read().split("\n")
     if impl and impl[-1] == "":
         impl.pop()
